@@ -116,6 +116,8 @@ def take(pattern, text, pos=0):
         return 'bad-regex'
     if m is None:
         return None
+    if m.end() < len(text) and m.end() > pos and re.match(r'\w', text[m.end()]) and re.match(r'\w', text[m.end() - 1]):
+        return 'mid-word'       # the match stops between two word characters: part of a longer identifier is claimed
     return m.end() == len(text)
 
 
@@ -124,6 +126,8 @@ def classify_with(rules, w):
         t = take(pat, w)
         if t == 'bad-regex':
             return 'bad-regex'
+        if t == 'mid-word':
+            return 'part-of-identifier-as-' + cls
         if t is not None:
             return cls if t else 'none'
     return 'none'
